@@ -14,6 +14,9 @@ _TH = _R @ np.diag([0.7, 1.9, 2.3]) @ _R.T
 INERTIAS = [
     ("diag123", 1.0, np.diag([1.0, 2.0, 3.0])),
     ("genericSPD", 2.5, 0.5 * (_TH + _TH.T)),  # symmetrised exactly: the input itself must be symmetric
+    # extremes of scale: a 1 g box of 4 x 6 x 8 mm in SI units, and principal moments that differ by a few 1e-6 relative
+    ("small_box_SI", 1.0e-3, np.diag([8.0 + 1.0 / 3.0, 6.0 + 2.0 / 3.0, 4.0 + 1.0 / 3.0]) * 1e-9),
+    ("nearly_isotropic", 2.0, np.diag([2.0, 2.0 * (1 + 3e-6), 2.0 * (1 - 2e-6)])),
 ]
 
 
